@@ -259,6 +259,8 @@ def _run(mod, prop: str, args, seed: int, t0: float) -> int:
     # -- shrink one representative per new bucket, write replay files, report
     violations = 0
     shrink_budget = 15.0 if tier == "quick" else 90.0
+    os.environ["VERIF_CASE_LIMIT_S"] = "5"
+    core.CASE_LIMIT_S = min(core.CASE_LIMIT_S, 5.0)  # shrinking: a hang is recognised quickly
     os.makedirs(os.path.join(HERE, "replays", prop), exist_ok=True)
     for i, (b, lst) in enumerate(sorted(new_buckets.items(), key=lambda kv: kv[0])):
         lst.sort(key=lambda e: len(core.canon(e["case"])))
